@@ -182,6 +182,9 @@ pub fn explore(prop: &str, a: &Arena, arena_id: usize, b: &Bounds, stats: &mut S
         let last_level = depth + 1 == b.depth;
         let chunk = (frontier.len() + nthreads - 1) / nthreads;
         let seen_ref = &seen;
+        // development aid: RSV_DUMP_KEYS=<file> writes (canonical key, initial state, history) of every successor of the last level
+        let dump: Option<std::sync::Mutex<std::fs::File>> = if last_level { std::env::var("RSV_DUMP_KEYS").ok().map(|p| std::sync::Mutex::new(std::fs::OpenOptions::new().create(true).append(true).open(p).expect("dump file"))) } else { None };
+        let dump = &dump;
         let results: Vec<(Vec<Item>, usize, Stats, Vec<Found>)> = std::thread::scope(|sc| {
             let handles: Vec<_> = frontier
                 .chunks(chunk.max(1))
@@ -221,7 +224,14 @@ pub fn explore(prop: &str, a: &Arena, arena_id: usize, b: &Bounds, stats: &mut S
                                                 fnd.push(Found { arena: arena_id, init: it.init, history: h, clause: c, detail: d });
                                             }
                                         }
-                                        if seen_ref.insert(key128(&ranked_key(&n))) {
+                                        let rk = ranked_key(&n);
+                                        if let Some(f) = dump.as_ref() {
+                                            use std::io::Write;
+                                            let mut h = it.history.clone();
+                                            h.push(op.clone());
+                                            let _ = writeln!(f.lock().unwrap(), "{:x}\t{:x}\t{}\t{}", key128(&rk), key128(&ranked_key(&it.s)), it.init, serde_json::to_string(&h.iter().map(|o| o.to_json(a)).collect::<Vec<_>>()).unwrap());
+                                        }
+                                        if seen_ref.insert(key128(&rk)) {
                                             if last_level {
                                                 // states of the last level are only counted, never expanded
                                                 new_last += 1;
